@@ -6,7 +6,7 @@ from checks.v2common import Acc, trace_leg, cfg_text
 PID = "C08"
 def run():
     t0 = time.time(); v = vlib.Verdict(PID); acc = Acc(); th = vlib.TIER == "thorough"
-    r = tlc_require_ok(tlc("V2Buffer", "V2Buffer.cfg", timeout=1500, files={"V2Buffer.cfg": cfg_text("V2Buffer.cfg", MaxRunes=4 if th else 3)}), "V2Buffer")
+    r = tlc_require_ok(tlc("V2Buffer", "V2Buffer.cfg", timeout=5000 if th else 1500, files={"V2Buffer.cfg": cfg_text("V2Buffer.cfg", MaxRunes=4 if th else 3)}), "V2Buffer")
     acc.add_tlc(r, "V2Buffer.cfg")
     for cfg, inv in [("V2BufferKeep2.cfg", "NoSplitRune"), ("V2BufferStale.cfg", "ChunkedEqualsWhole")]:
         nv = tlc("V2Buffer", cfg, timeout=600)      # non-vacuity: too small a carry-over / stale-byte decoding must be caught
